@@ -96,12 +96,35 @@ func (f *faultProcess) OnExecute(ctx context.Context, sender uint64, account str
 }
 
 func (f *faultProcess) OnContribute(ctx context.Context, sender uint64, account string, secret bls.SecretKey, vVec []bls.PublicKey) (bls.SecretKey, []bls.PublicKey, error) {
-	switch f.take("contribute") {
+	switch k := f.take("contribute"); k {
 	case "refused":
 		return bls.SecretKey{}, nil, errInjectedRemote
 	case "error-reply":
 		_, _, _ = f.Service.OnContribute(ctx, sender, account, secret, vVec)
 		return bls.SecretKey{}, nil, errInjectedRemote
+	case "":
+	default:
+		// a dishonest (or broken) participant: the request is carried out, the reply is altered on its way back
+		sec, vv, err := f.Service.OnContribute(ctx, sender, account, secret, vVec)
+		if err != nil {
+			return sec, vv, err
+		}
+		raw := make([][]byte, len(vv))
+		for i := range vv {
+			raw[i] = vv[i].Serialize()
+		}
+		s2, v2 := (&Transport{}).tamperContribution(strings.TrimPrefix(k, "reply:"), 0, sender, account, sec.Serialize(), raw)
+		var outSec bls.SecretKey
+		if err := outSec.Deserialize(s2); err != nil {
+			panic(err)
+		}
+		outVec := make([]bls.PublicKey, len(v2))
+		for i := range v2 {
+			if err := outVec[i].Deserialize(v2[i]); err != nil {
+				panic(err)
+			}
+		}
+		return outSec, outVec, nil
 	}
 	return f.Service.OnContribute(ctx, sender, account, secret, vVec)
 }
@@ -174,6 +197,11 @@ func runRealNet(t *testing.T, rc *RunCtx, prop string) {
 		if kind == "contribute" {
 			// contributions go from the lower to the higher identifier: the lowest never receives one
 			victim = 1 + ch.Pick(n-1, 0)
+			// ... and half of the contribution faults are an altered reply (the sender's own handling of what comes back)
+			if ch.Pick(2, 0) == 1 {
+				tampers := []string{"share-replaced", "commitment-altered", "commitment0-altered", "vvec-short", "vvec-long", "vvec-short-consistent", "vvec-long-consistent", "vvec-empty"}
+				how = "reply:" + tampers[ch.Pick(len(tampers), 0)]
+			}
 		}
 		rn.faults[victim].plan[kind] = how
 		desc += fmt.Sprintf("/%s at %s fails once (%s)", kind, parts[victim].Name, how)
